@@ -145,6 +145,26 @@ Example C29_write_example :
   /\ snd (wmodel WEncoder WFcbe false false evs {| wsc_calls := []; wsc_limit := Some 6; wsc_sticky := false |}) = OPanicAt 2.
 Proof. vm_compute. repeat split. Qed.
 
+(* a 40-byte string that reaches a plain io.Writer in two pieces (a scratch buffer of 32 bytes): a transient failure of
+   the first piece is reported and the second piece is never written; and what the correspondence run compares: a
+   destination call issued from a place that is none of the write sites of the shape never agrees with the model *)
+Example C29_string_in_pieces :
+  let evs := [[{| lw_site := LBytes; lw_len := 2 |}; {| lw_site := LStringNotLF; lw_len := 32 |}; {| lw_site := LStringNotLF; lw_len := 8 |}]] in
+  let fail1 := {| wsc_calls := [1]; wsc_limit := None; wsc_sticky := false |} in
+  let call k n := {| wc_kind := k; wc_len := n |} in
+  snd (wmodel WMarshal WFcbe false false evs fail1) = OErr
+  /\ length (fst (wmodel WMarshal WFcbe false false evs fail1)) = 2%nat
+  /\ iofail_case_ok (WriteCase WMarshal WFcbe false false evs
+                       [(WCbeBytes, call KWrite 2); (WCbeBytes, call KWrite 32); (WCbeBytes, call KWrite 8)]
+                       [(fail1, {| o_out := OErr; o_calls := 2 |})]) = true
+  /\ iofail_case_ok (WriteCase WMarshal WFcbe false false evs
+                       [(WCbeBytes, call KWrite 2); (SUnknown, call KWrite 32); (SUnknown, call KWrite 8)]
+                       [(fail1, {| o_out := OErr; o_calls := 2 |})]) = false
+  /\ iofail_case_ok (WriteCase WMarshal WFcbe false false evs
+                       [(WCbeBytes, call KWrite 2); (WCbeBytes, call KWrite 32); (WCbeBytes, call KWrite 8)]
+                       [(fail1, {| o_out := OOk; o_calls := 3 |})]) = false.
+Proof. vm_compute. repeat split. Qed.
+
 (* formerly C29/read/cbe/swallowed/RUlebCont/data-with-error-transient: document 81 80 80 00 01, the third Read
    returns (1, err) and later Reads would succeed — now reported, after exactly three calls on the reader *)
 Example C29_pinned_uleb_data_with_error :
